@@ -310,3 +310,63 @@ func VerifH_C14_collision() {
 	_, found := bt.SearchRecord(b)
 	vrt.Assert(!found, "colliding-absent-name-not-found")
 }
+
+// C14 persistence into a differently sized object: an index written with a small node (capacity 1..4, filled to
+// capacity or one below) is loaded by an object constructed with the default node size; the loaded index has the
+// written index's capacity (a further insert is accepted exactly when the original accepts it), keeps every
+// record, and survives another write/load cycle.
+func VerifH_C14_load_other_node_size() {
+	capacity := 1 + vrt.Choice(4)
+	nodeSize := uint32(10 + 11*capacity + vrt.Choice(2)*5)
+	bt := NewWritableBTreeV2(nodeSize)
+	vrt.Assert(bt.calculateMaxRecords() == capacity, "btree-capacity")
+	k := capacity - vrt.Choice(2)
+	if k < 1 {
+		k = 1
+	}
+	pool := []string{"alpha", "b", "attr_12chars", "", "zz9"}
+	ids := make([]uint64, k)
+	for i := 0; i < k; i++ {
+		ids[i] = vrt.U64() & 0x00FFFFFFFFFFFFFF
+		vrt.AssertNoErr(bt.InsertRecord(pool[i], ids[i]), "btree-insert-below-capacity-ok")
+	}
+	sb := &core.Superblock{Version: 2, OffsetSize: 8, LengthSize: 8, Endianness: binary.LittleEndian}
+	mem := &verifMem{next: 64}
+	addr, err := bt.WriteToFile(mem, mem, sb)
+	vrt.AssertNoErr(err, "btree-write-ok")
+	back := NewWritableBTreeV2([]uint32{4096, 512}[vrt.Choice(2)])
+	vrt.AssertNoErr(back.LoadFromFile(mem, addr, sb), "btree-load-ok")
+	verifBTreeInvariant(back, k)
+	vrt.Assert(back.calculateMaxRecords() == capacity, "btree-loaded-capacity-is-the-written-one")
+	newID := vrt.U64() & 0x00FFFFFFFFFFFFFF
+	err = back.InsertRecord(pool[4], newID)
+	n := k
+	if k >= capacity {
+		vrt.Assert(err == ErrBTreeNodeFull, "btree-full-insert-rejected")
+	} else {
+		vrt.AssertNoErr(err, "btree-insert-below-capacity-ok")
+		n++
+	}
+	verifBTreeInvariant(back, n)
+	for i := 0; i < k; i++ {
+		got, ok := back.SearchRecord(pool[i])
+		vrt.Assert(ok, "btree-live-key-found")
+		if ok {
+			want := verifHeapID7(ids[i])
+			for b := 0; b < 7; b++ {
+				vrt.Assert(got[b] == want[b], "btree-live-value")
+			}
+		}
+	}
+	mem2 := &verifMem{next: 64}
+	addr2, err := back.WriteToFile(mem2, mem2, sb)
+	vrt.AssertNoErr(err, "btree-write-ok")
+	again := NewWritableBTreeV2(4096)
+	vrt.AssertNoErr(again.LoadFromFile(mem2, addr2, sb), "btree-load-ok")
+	verifBTreeInvariant(again, n)
+	for i := range back.records {
+		vrt.Assert(again.records[i].NameHash == back.records[i].NameHash, "btree-persist-hash")
+		vrt.Assert(again.records[i].HeapID == back.records[i].HeapID, "btree-persist-heapid")
+	}
+	vrt.Covered("btree-step-done")
+}
